@@ -482,6 +482,29 @@ func (c *PCluster) Crash(i int) error {
 
 // ---- observation ----
 
+// LeaderDBIds lists what the database of the leader controller on node i holds of the scripts' writes
+// (keys "w<id>"), in key order. ok is false when the node has no leader controller.
+func (c *PCluster) LeaderDBIds(i int) (ids []string, ok bool) {
+	l, err := c.Nodes[i].dirc.GetLeader(Shard)
+	if err != nil {
+		return nil, false
+	}
+	defer func() {
+		if recover() != nil {
+			ids, ok = nil, false
+		}
+	}()
+	it, err := kv.VerifKV(server.VerifLeaderDB(l)).RangeScan("w", "x")
+	if err != nil {
+		return nil, false
+	}
+	defer it.Close()
+	for ; it.Valid(); it.Next() {
+		ids = append(ids, strings.TrimPrefix(it.Key(), "w"))
+	}
+	return ids, true
+}
+
 type NodeView struct {
 	Ctrl    string // "-", "L", "F"
 	Term    int64
@@ -515,6 +538,11 @@ func readLog(w wal.Wal) []string {
 	}
 	defer r.Close()
 	var out []string
+	// offsets below the first one the WAL holds (a log that does not start at 0) are shown as holes, so that
+	// the position in the list is the offset
+	for o := int64(0); o < w.FirstOffset(); o++ {
+		out = append(out, "-1:hole")
+	}
 	for r.HasNext() {
 		e, err := r.ReadNext()
 		if err != nil {
